@@ -50,6 +50,22 @@ def level_location(level, cache_dir, dimensions=None):
         return os.path.join(cache_dir, dim_path, "%02d" % level)
 
 
+def _dimension_dirname(name, value):
+    """
+    Return the directory name for one dimension. Names and values are taken
+    unchecked from WMS requests (TIME, ELEVATION, DIM_*), so path separators
+    are replaced to keep the tiles below the cache directory.
+
+    >>> _dimension_dirname('time', '/../../../x')
+    'time-_.._.._.._x'
+    """
+    dirname = name + "-" + str(value)
+    for sep in ('/', '\\', os.sep, os.altsep):
+        if sep:
+            dirname = dirname.replace(sep, '_')
+    return dirname
+
+
 def dimensions_part(dimensions):
     """
     Return the subpath where all tiles for `dimensions` will be stored.
@@ -66,7 +82,7 @@ def dimensions_part(dimensions):
         for dim in dims.keys():
             (custom_dims if dim.startswith('dim_') else predefined_dims).append(dim)
         dim_keys = sorted(predefined_dims) + sorted(custom_dims)
-        return os.path.join(*(map(lambda k: k + "-" + str(dims.get(k, 'default')), dim_keys)))
+        return os.path.join(*(map(lambda k: _dimension_dirname(k, dims.get(k, 'default')), dim_keys)))
     else:
         return ""
 
